@@ -3,7 +3,7 @@
    current C sources (coq/Gen/Builtins.v) before this file is checked. *)
 Require Import ZArith List String.
 Require Import AV.Builtins.CInt AV.Builtins.Spec AV.Builtins.Facts AV.Gen.Builtins.
-Require Import AV.Builtins.ProofsFint AV.Builtins.ProofsGenc AV.Builtins.ProofsCfold AV.Builtins.ProofsCover.
+Require Import AV.Builtins.ProofsFint AV.Builtins.ProofsGenc AV.Builtins.ProofsCfold AV.Builtins.ProofsCover AV.Builtins.ProofsFault.
 Import ListNotations.
 
 (* Interpreter: every row of a specified builtin (not listed as a known finding)
@@ -22,6 +22,12 @@ Print Assumptions genc_meets_spec.
 Theorem cfold_declines_or_meets_spec : folds_to_spec known_bad_cfold cfold_tbl.
 Proof. exact cfold_folds_to_spec_l. Qed.
 Print Assumptions cfold_declines_or_meets_spec.
+
+(* The folder never evaluates a trapping operation (division, remainder, modular
+   ops) outside its domain: there the row declines, whatever the operands. *)
+Theorem cfold_never_faults : fold_fault_free known_fault_cfold cfold_tbl.
+Proof. exact cfold_never_faults_l. Qed.
+Print Assumptions cfold_never_faults.
 
 (* Exported for C02 (Fold.v): a folding row computes spec. *)
 Theorem cfold_meets_spec : forall e o args,
